@@ -18,7 +18,8 @@ Record tcase := mkT {
   t_out : output;
   t_ref : option node;         (* workspace root the implementation had before the original commit *)
   t_specs : list N;
-  t_obs : list N }.            (* observed facts: 1 = something outside project/cache/config changed,
+  t_obs : list N;
+  t_text : list (bytes * bytes) }.  (* `dud status` (human) lines: artifact path, rendered status *)            (* observed facts: 1 = something outside project/cache/config changed,
                                   2 = the dud process itself issued a mutating system call on a stage
                                   artifact during run, ... *)
 
@@ -363,6 +364,45 @@ Definition run_log (c : tcase) : list bytes := match t_out c with ORun l => l | 
 Definition run_args (c : tcase) : list bytes * bool :=
   match t_cmd c with CRun ts s => (ts, s) | _ => ([], false) end.
 
+(* ---- C05: the human rendering says "up-to-date" exactly when ContentsMatch is true ---- *)
+Fixpoint split_on (sep : N) (s cur : bytes) : list bytes :=
+  match s with
+  | [] => [rev cur]
+  | b :: r => if b =? sep then rev cur :: split_on sep r [] else split_on sep r (b :: cur)
+  end.
+Fixpoint ltrim (s : bytes) : bytes := match s with 32 :: r => ltrim r | _ => s end.
+(* drop a leading "<digits>x " count *)
+Fixpoint drop_count (s : bytes) : bytes :=
+  match s with
+  | b :: r => if (48 <=? b) && (b <=? 57) then drop_count r
+              else if b =? 120 then ltrim r else s
+  | [] => []
+  end.
+(* "up-to-date", "up-to-date (link)", "up-to-date (not cached)", "directory", "empty directory" *)
+Definition ok_labels : list bytes :=
+  [[117; 112; 45; 116; 111; 45; 100; 97; 116; 101];
+   [117; 112; 45; 116; 111; 45; 100; 97; 116; 101; 32; 40; 108; 105; 110; 107; 41];
+   [117; 112; 45; 116; 111; 45; 100; 97; 116; 101; 32; 40; 110; 111; 116; 32; 99; 97; 99; 104; 101; 100; 41];
+   [100; 105; 114; 101; 99; 116; 111; 114; 121];
+   [101; 109; 112; 116; 121; 32; 100; 105; 114; 101; 99; 116; 111; 114; 121]].
+Definition human_ok (text : bytes) : bool :=
+  forallb (fun item =>
+    let it := ltrim item in
+    let lbl := match it with
+               | b :: _ => if (48 <=? b) && (b <=? 57) then drop_count it else it
+               | [] => [] end in
+    existsb (beqb lbl) ok_labels) (split_on 44 text []).
+Definition spec_human (c : tcase) : bool :=
+  match t_out c with
+  | OStatus l =>
+    forallb (fun pt =>
+      match flat_map (fun s => match alookup (fst pt) (ss_arts (snd s)) with Some st => [st] | None => [] end) l with
+      | st :: _ => Bool.eqb (human_ok (snd pt)) (st_cm st)
+      | [] => true
+      end) (t_text c)
+  | _ => true
+  end.
+
 Definition has_obs (c : tcase) (n : N) : bool := existsb (N.eqb n) (t_obs c).
 
 Definition has_spec (c : tcase) (n : N) : bool := existsb (N.eqb n) (t_specs c).
@@ -404,6 +444,7 @@ Definition spec_table (c : tcase) : list (N * bool) :=
    (10, (spec_inputs_untouched (t_pre c) (t_post c)));
    (20, (negb (has_obs c 1)));
    (24, (negb (has_obs c 3)));
+   (26, (spec_human c));
    (21, (node_eqb (w_root (t_pre c)) (w_root (t_post c))));
    (18, ((if t_ok c then spec_valid_log (t_pre c) (fst (run_args c)) (snd (run_args c)) (run_log c) else true)));
    (19, ((if t_ok c then spec_consistent (t_sems c) (t_post c) (fst (run_args c)) else true)));
